@@ -59,6 +59,121 @@ READ_ONLY_CALLS = {"aws_linked_list_front", "aws_linked_list_back", "aws_linked_
                    "aws_string_c_str", "aws_byte_cursor_from_c_str", "aws_byte_cursor_from_buf", "aws_hash_table_get_entry_count", "aws_priority_queue_size"}
 
 
+LIST_FRONT = ("aws_linked_list_front", "aws_linked_list_begin")
+LIST_BACK = ("aws_linked_list_back", "aws_linked_list_rbegin")
+
+
+def list_pops(fn, which="front"):
+    """[(event, list string)]: the calls that unlink the first (last) node of a list - aws_linked_list_pop_front(list), or
+    aws_linked_list_remove(node) where node is the local that holds aws_linked_list_front/begin(list)"""
+    out = []
+    ends = LIST_FRONT if which == "front" else LIST_BACK
+    for e in fn.calls("aws_linked_list_pop_" + which):
+        out.append((e, argstr(fn, e.node, 0)))
+    for e in fn.calls("aws_linked_list_remove"):
+        o = origin(fn, arg(fn, e.node, 0))
+        if o is not None and o["k"] == "call" and o.get("callee") in ends:
+            out.append((e, argstr(fn, o, 0)))
+    return out
+
+
+def list_take_alls(fn):
+    """[(event, destination, source)]: calls that move a whole list into another - aws_linked_list_move_all_back/front(dst,
+    src), and aws_linked_list_swap_contents(a, b), which does so in both directions"""
+    out = []
+    for e in fn.calls(("aws_linked_list_move_all_back", "aws_linked_list_move_all_front")):
+        out.append((e, argstr(fn, e.node, 0), argstr(fn, e.node, 1)))
+    for e in fn.calls("aws_linked_list_swap_contents"):
+        out.append((e, argstr(fn, e.node, 0), argstr(fn, e.node, 1)))
+        out.append((e, argstr(fn, e.node, 1), argstr(fn, e.node, 0)))
+    return out
+
+
+def loop_cover(fn, header, body):
+    """The index range a counting loop presents to its body, whichever way it counts.  Returns (var name, N node, form) when
+    the body runs once for every value 0 <= v < N of the local v (written nowhere else in the loop):
+      "up"    for (v = 0; v < N; v++)            "down"  for (v = N; v-- > 0;) / while (v-- != 0)
+    and form "count" when the loop merely runs N times (`for (v = N; v > 0; v--)`: the body sees 1..N)."""
+    c = fn.blocks[header].cond
+    g_ = cmp_norm(fn, c, True) if c is not None else None
+    if not g_ or g_[2] is None:
+        return None
+    l_, r_ = uncast(fn, g_[0]), uncast(fn, g_[2])
+    flip = {"<": ">", ">": "<", "!=": "!="}
+    for v_, op_, o_ in ((l_, g_[1], r_), (r_, flip.get(g_[1]), l_)):
+        if v_ is None or op_ is None:
+            continue
+        postdec = False
+        if v_["k"] == "un" and v_["op"] == "post--":
+            v_ = fn.d(v_["a"][0])
+            postdec = True
+        if v_ is None or v_["k"] != "var":
+            continue
+        steps = []
+        for b_ in set(body) | {header}:
+            for el in fn.blocks[b_].elems:
+                for x in fn.walk(el):
+                    tgt = fn.d(x["a"][0]) if x.get("a") else None
+                    if tgt is not None and tgt["k"] == "var" and tgt["n"] == v_["n"]:
+                        if x["k"] == "un" and x["op"] in ("post++", "pre++"):
+                            steps.append(1)
+                        elif x["k"] == "un" and x["op"] in ("post--", "pre--"):
+                            steps.append(-1)
+                        elif x["k"] == "un" and x["op"] == "addr":
+                            steps.append(0)
+                        elif x["k"] == "bin" and x["op"] in ASSIGN_OPS:
+                            steps.append(0)
+        init = None
+        for e_ in fn.all_events():
+            if e_.kind == "decl" and e_.blk not in body:
+                for vv in e_.node["vars"]:
+                    if vv["n"] == v_["n"] and vv.get("init") is not None:
+                        init = vv["init"]
+        if init is None:
+            for b_ in fn.blocks.values():
+                if b_.id in body or b_.id == header:
+                    continue
+                for el in b_.elems:
+                    if el["k"] == "bin" and el["op"] == "=" and (fn.d(el["a"][0]) or {}).get("k") == "var" and fn.d(el["a"][0])["n"] == v_["n"]:
+                        init = el["a"][1]
+        if init is None:
+            continue
+        if op_ == "<" and steps == [1] and not postdec and fn.is_const(uncast(fn, init)) == 0:
+            return (v_["n"], o_, "up")
+        if op_ in (">", "!=") and steps == [-1] and fn.is_const(o_) == 0:
+            return (v_["n"], uncast(fn, init), "down" if postdec else "count")
+    return None
+
+
+def pure_callee(fn, name, depth=0):
+    """the function `name`, defined in fn's translation unit, only computes: it stores to nothing but its own scalar locals
+    and calls nothing but functions of the same kind (a cached result of another call cannot be made stale by it)"""
+    if name in READ_ONLY_CALLS:
+        return True
+    memo = fn.unit.__dict__.setdefault("_pure_callee", {})
+    if name in memo:
+        return memo[name]
+    memo[name] = False  # recursion: not pure
+    gs = [g for g in fn.unit.functions if g.name == name and g.blocks]
+    ok = len(gs) == 1 and depth < 4
+    if ok:
+        g = gs[0]
+        for e in g.all_events():
+            if e.kind == "access" and e.mode and ("w" in e.mode or e.mode == "addr"):
+                if not (e.node["k"] == "var" and e.node.get("sc") in ("local", "param") and "w" in e.mode):
+                    ok = False
+            elif e.kind == "call":
+                c = e.node.get("callee")
+                if not c or not (c.startswith(("aws_fatal_assert", "__builtin_expect")) or pure_callee(fn, c, depth + 1)):
+                    ok = False
+            elif e.kind == "asm":
+                ok = False
+            if not ok:
+                break
+    memo[name] = ok
+    return ok
+
+
 def origin(fn, n, use=None):
     """n seen through casts and through a local that has exactly one definition - its declaration's initialiser, a call
     included (`const size_t size = get_size(x); if (i >= size)`).  With `use` (an event): only when no other call lies
@@ -98,7 +213,7 @@ def origin(fn, n, use=None):
         if use is not None and init is not None and init["k"] == "call":
             dom = dominators(fn)
             between = [e for e in fn.all_events() if e.kind == "call" and e.node is not init and ev_dominates(fn, decls[0][0], e, dom) and ev_dominates(fn, e, use, dom)
-                       and not (e.node.get("callee") or "").startswith(("aws_fatal_assert", "__builtin_expect")) and (e.node.get("callee") or "") not in READ_ONLY_CALLS]
+                       and not (e.node.get("callee") or "").startswith(("aws_fatal_assert", "__builtin_expect")) and not (e.node.get("callee") and pure_callee(fn, e.node["callee"]))]
             if between:
                 return n
         n = init
